@@ -117,6 +117,10 @@ def conditions_of(p, node, stop):
         elif isinstance(par, ast.While):
             if child in par.body:
                 out.append((par.test, True))
+        elif isinstance(par, ast.BoolOp) and child in par.values:
+            k = par.values.index(child)
+            for v in par.values[:k]:   # short-circuit: earlier operands decided the evaluation of this one
+                out.append((expand(p, v, stop, cond=True), isinstance(par.op, ast.And)))
         elif isinstance(par, ast.IfExp):
             if child is par.body:
                 out.append((expand(p, par.test, stop, cond=True), True))
@@ -482,6 +486,15 @@ def eval_expr(p, e, env, fn=None):
         return True
     if isinstance(e, (ast.Tuple, ast.List, ast.Set)):
         return [eval_expr(p, x, env, fn) for x in e.elts]
+    if isinstance(e, ast.Call) and isinstance(e.func, ast.Attribute) and e.func.attr in ("startswith", "endswith", "lower", "upper", "strip", "lstrip", "rstrip", "isdigit"):
+        recv = eval_expr(p, e.func.value, env, fn)
+        if isinstance(recv, str):
+            args = [eval_expr(p, a, env, fn) for a in e.args]
+            if all(isinstance(a, (str, tuple)) for a in args):
+                return getattr(recv, e.func.attr)(*args)
+    if isinstance(e, ast.Call) and isinstance(e.func, ast.Name) and e.func.id in ("len", "bool", "str") and len(e.args) == 1:
+        v = eval_expr(p, e.args[0], env, fn)
+        return {"len": len, "bool": bool, "str": str}[e.func.id](v)
     raise _Unknown(s)
 
 
